@@ -226,6 +226,16 @@ def _first_diff_tag(t, a, b, e):
 
 
 def explore(ctx: runner.Ctx):
+    # the Literal table of C02 (bool/int look-alikes, enum and bytes members) through this property's own oracle
+    from props.c02_nonmodel_reference import literal_table_cases  # noqa: PLC0415
+    n_lit = 0
+    for i, c in enumerate(literal_table_cases()):
+        n_lit += 1
+        if i % ctx.nshards == ctx.shard:
+            for dbg in ((0, 1, 2) if ctx.tier == "thorough" else (i % 3,)):
+                runner.guarded(ctx, lambda k: check_case(ctx, k),
+                               {"t": c["t"], "datum": c["datum"], "ops": ["table"], "debug": dbg, "layouts": {}})
+    ctx.mark_exhaustive(f"Literal table: {n_lit} (Literal, datum) pairs compared between strict and lax coercion")
     ctx.given(st_case(), lambda c: check_case(ctx, c), ctx.budget(8000, 400000))
 
 
